@@ -617,6 +617,33 @@ pub fn run(args: &Args, report: &mut Report) {
         return;
     }
     let seed = args.seed ^ 0xC03;
+    if args.mode.as_deref() == Some("miri") {
+        // tiny single-threaded workload for the interpreter: state pool recycling on all early-return paths
+        for i in 0..6u64 {
+            let mut h = gen_hist(seed, i);
+            if h.preset.is_lowrank() {
+                // faer's decompositions reach libm inline assembly, which the interpreter does not support
+                h.preset = if h.preset.is_nuts() { crate::chains::Preset::DiagNuts } else { crate::chains::Preset::DiagMclmc };
+            }
+            h.dim = h.dim.min(3);
+            h.draws = 10;
+            h.patches.retain(|(p, _)| p != "num_tune" && p != "maxdepth");
+            h.patches.push(("num_tune".into(), json!(6)));
+            if h.preset.is_nuts() {
+                h.patches.push(("maxdepth".into(), json!(3)));
+            }
+            run_hist(report, &h, false);
+        }
+        for i in 0..10u64 {
+            let mut a = gen_audit(seed, i);
+            if let Transform::LowRank { stds, mean, .. } = &a.setup.transform {
+                a.setup.transform = Transform::Diag { stds: stds.clone(), mean: mean.clone() };
+            }
+            a.opts.maxdepth = a.opts.maxdepth.min(3);
+            run_audit(report, &a, false);
+        }
+        return;
+    }
     let nh = report.size(1200, 30_000);
     let na = report.size(6000, 200_000);
     crate::report::par_run(report, nh + na, |i, rep| {
